@@ -7,6 +7,7 @@ deadlines is exact).  Rule of the fake socket (mirrored by the Coq transfer mach
 of the script is delivered iff its time stamp is before now+timeout, otherwise the clock advances by
 the socket timeout and socket.timeout is raised (the event stays queued).
 """
+import errno
 import io
 import logging
 import socket as real_socket
@@ -78,7 +79,11 @@ class FakeSock:
         pass
 
     def sendto(self, data, addr):
+        # a "send" record means sendto() was called; like Linux, sendto to port 0 fails with EINVAL (a datagram
+        # with source port 0 can be received, but it cannot be answered)
         self.log.append(("send", int(round(self.clock[0] * TICK)), addr, bytes(data)))
+        if addr[1] == 0:
+            raise OSError(errno.EINVAL, "Invalid argument")
 
     def recvfrom(self, n):
         if self.script:
